@@ -23,8 +23,21 @@ def main():
     try:
         core.import_repo()
         mod = importlib.import_module(prop.lower())
-        if a.replay:
+        if a.replay and hasattr(mod, "replay"):
             rc = mod.replay(ctx, a.replay)
+        elif a.replay:
+            # generic replay: re-run the check with the recorded tier/seed and look for the same case
+            import json
+            rec = json.load(open(a.replay))
+            ctx.tier = rec.get("tier", ctx.tier)
+            ctx.seed = rec.get("seed", ctx.seed)
+            mod.run(ctx)
+            want = rec["case"].get("class_key") or json.dumps(rec["case"], sort_keys=True, default=str)
+            hit = [c for c in ctx.failures
+                   if (c.get("class_key") or json.dumps(c, sort_keys=True, default=str)) == want]
+            print("REPLAY %s: %s" % (a.replay, "reproduced" if hit else "not reproduced"))
+            ctx.failures = hit
+            rc = ctx.finish()
         else:
             mod.run(ctx)
             rc = ctx.finish()
